@@ -50,13 +50,16 @@ def main():
     for sid, pid, verdict, buckets, wall in results:
         mpath = os.path.join(ROOT, "seeded", sid, "meta.json")
         meta = json.load(open(mpath))
+        if os.environ.get("SEEDED_NO_WRITE"):
+            print("%-8s %-4s %-10s %5.0fs %s" % (sid, pid, verdict, wall, ", ".join(buckets[:2])))
+            continue
         meta["detected_by"] = {"check": pid, "tier": "quick", "seed": int(os.environ.get("VERIF_SEED", "1")),
                                "verdict": verdict, "buckets": buckets[:6], "wall_s": wall,
                                "how": "tools/seeded_matrix.py: patch applied to a scratch copy of /repo (VERIF_REPO), removed afterwards"}
         json.dump(meta, open(mpath, "w"), indent=1)
         rows.append((sid, pid, verdict, ", ".join(buckets[:3]), wall, meta.get("summary", "")))
         print("%-8s %-4s %-10s %5.0fs %s" % (sid, pid, verdict, wall, ", ".join(buckets[:2])))
-    if len(sys.argv) == 1:
+    if len(sys.argv) == 1 and not os.environ.get("SEEDED_NO_WRITE"):
         with open(os.path.join(ROOT, "seeded", "RESULTS.md"), "w") as fh:
             fh.write("# Seeded defects vs. the property's quick check (seed %s)\n\n" % os.environ.get("VERIF_SEED", "1"))
             fh.write("| seeded defect | property | verdict | first buckets | wall s | what the change does |\n|---|---|---|---|---|---|\n")
